@@ -168,6 +168,17 @@ def run(tier: str, seed: int, t0: float) -> int:
     if not r.ok:
         raise core.MachineryError("MC_Map: " + "; ".join(r.errors[:3]) + r.stdout[-800:])
     stats.add_tlc(r, "M MC_Map laws")
+    # ---- M, unbounded: the position laws for maps with up to three ranges of arbitrary integer sizes, gaps and
+    # positions, decided symbolically by Apalache (spec/apalache/MapLaws3.tla over PMMapUnrolled, which the TLC run
+    # above has just shown to be PMMap!MapPos on every enumerated map: UnrolledAgrees)
+    from concurrent.futures import ThreadPoolExecutor
+    with ThreadPoolExecutor(max_workers=6) as ex:
+        res = list(ex.map(lambda law: (law, *tlc.run_apalache("MapLaws3", law)), tlc.APALACHE_LAWS))
+    for law, ok, wall, tail in res:
+        if not ok:
+            raise core.MachineryError(f"Apalache did not establish MapLaws3!{law}: {tail}")
+        stats.tlc_cmds.append(f"M apalache-mc check --length=0 --inv={law} MapLaws3.tla: NoError in {wall:.0f}s (all integer sizes/positions, <= 3 ranges)")
+    stats.count("apalache_laws", len(res))
     r = tlc.run_tlc("MC_Mapping", "MC_Mapping.cfg", env={"PMV_MAXOPS": maxops, "PMV_SHARD": 0, "PMV_NSHARDS": 1}, timeout=3000)
     if not r.ok:
         raise core.MachineryError("MC_Mapping: " + "; ".join(r.errors[:3]) + r.stdout[-800:])
